@@ -121,9 +121,12 @@ def run : Handler := fun req => do
         | [ax, rm, _, _] =>
           if rm != String.ofList (routerFn method.toList) then return verdict false [] s!"{method} {path} is registered under routing function {rm}"
           -- the pattern must be the template with parameters renamed, segment by segment
-          let tsegs := (splitOn '/' (splitOnce '?' path.toList).1).filter (!·.isEmpty)
-          let asegs := (splitOn '/' ax.toList).filter (!·.isEmpty)
-          if tsegs.map shape != asegs.map shape then return verdict false [] s!"route pattern {ax} does not have the shape of template {path}"
+          -- segments as HTTP sees them: `/items/` is another path than `/items` (matchit treats the trailing slash as significant)
+          let tsegs := Oas3.Path.templateSegments path.toList
+          let asegs := Oas3.Path.templateSegments ax.toList
+          if tsegs.map shape != asegs.map shape then
+            let onlyEmpty := (tsegs.filter (!·.isEmpty)).map shape == (asegs.filter (!·.isEmpty)).map shape
+            return verdict false (if onlyEmpty then ["KnownEmptySegmentDropped"] else []) s!"route pattern {ax} does not have the shape of template {path}"
         | _ => pure ()
       | _ => pure ()
     -- every parameter of the merged (path-item + operation) set reaches the handler: extractor present and
